@@ -8,6 +8,13 @@ COMMON_TRUST = [
 ]
 
 PROPS = {
+    'C14': dict(
+        units=['reconnect'], level='proof',
+        not_covered=[
+            'Connection::{connect,lazy}, the tower Buffer worker in front of Reconnect, hyper connection-death detection (poll_ready of the connected service reporting an error is taken as given)',
+            'ConnectError -> UNAVAILABLE mapping goes through dyn Error source chains (Status::from_error)',
+            'liveness ("every call completes") is not claimed: the loop in poll_ready has no decreases clause - a connector that always succeeds and dies at once is a legitimate infinite history; what is proved is the state machine for every finite history',
+        ]),
     'C09': dict(
         units=['timeout'], level='proof',
         not_covered=[
